@@ -14,8 +14,8 @@ CHECKS = {
    note="Trusts the capture-and-inject harness (each Write yields exactly one datagram, checked) and the model's reading of the statement: fewer than W behind the newest accepted record => exactly once; older => at most once.",
    technique="deterministic simulation: exhaustive arrival-sequence enumeration + seeded reordering/duplication against a reference window model"),
  "C09": dict(level="exploration", design="§5 C09",
-   text="Seeded exploration of goroutine interleavings (yield points at every lock, select and channel send of the instrumented library, parked and released by a seeded controller) of 1-4 concurrent writers per side, handshake retransmissions under loss, injected datagrams provoking alerts, and Close racing writes, over 13 suite/CID/version configurations; a wire monitor independent of the library's codecs checks every emitted record header. NAT rebinds with an echoing server application make path-validation records race application writes. DTLS 1.3 records are not decided by this check (encrypted sequence numbers).",
-   note="Sampling evidence only. Cooperative locks admit barging, a superset of real mutex schedules. DTLS 1.3 sequence numbers are not visible on the wire and are not covered.",
+   text="Seeded exploration of goroutine interleavings (yield points at every lock, select and channel send of the instrumented library, parked and released by a seeded controller) of 1-4 concurrent writers per side, handshake retransmissions under loss, injected datagrams provoking alerts, and Close racing writes, over 13 suite/CID/version configurations; a wire monitor independent of the library's codecs checks every emitted record header. NAT rebinds with an echoing server application make path-validation records race application writes. DTLS 1.3 record numbers are decrypted by the reference implementation with the sender's traffic secrets.",
+   note="Sampling evidence only. Cooperative locks admit barging, a superset of real mutex schedules. Export/import continuity of record numbers is C19's business; the 2^48 limit is not reached.",
    technique="deterministic simulation: seeded schedule exploration + fault injection with an independent wire monitor"),
  "C12": dict(level="fault_enumeration", design="§5 C12",
    text="The real sender-side fragmentation and the real reassembly buffer are joined by a one-link simulated network that reorders, duplicates and interleaves fragments; every partition x permutation x single duplicate is enumerated for short messages, longer multi-message cases are sampled (MTU 1..1500, lengths to 20000, zero-length fragments, several fragments per record). A bitmap reassembler decides after every arrival what may and must surface.",
